@@ -127,7 +127,7 @@ def _mk_setattr(cfg, key):
     return Contract("C05.lazy.__setattr__[set=%s,cached=%s,assign=%s]" % (",".join(cfg[0]) or "-", ",".join(cfg[1]) or "-", key),
                     target=lambda: _lazy_cls().__setattr__, setup=setup, ensures=ens,
                     canaries=([("stale cache kept", "                del self._computed_values[key]", "                pass")] if key in cfg[1] else []) +
-                             [("materialised table kept after an assignment", "self._computed = False  # a table", "pass  # a table")])
+                             [("materialised table kept after an assignment", "            self._computed = False", "            pass")])
 
 
 # ---- __getitem__ ------------------------------------------------------------------------------------------------------------------------
